@@ -46,6 +46,17 @@ Fixpoint expr_of_sx (x : sx) : option expr :=
                              end) l) (fun l' => Some (EList l'))
                 | _ => None
                 end
+      | 20%N | 21%N =>
+          match args with
+          | [L l] =>
+              omap ((fix go (l : list sx) : option (list expr) :=
+                       match l with
+                       | [] => Some []
+                       | h :: t => omap (expr_of_sx h) (fun h' => omap (go t) (fun t' => Some (h' :: t')))
+                       end) l) (fun l' => Some (EMinMax (N.eqb tag 20) l'))
+          | _ => None
+          end
+      | 22%N => un (EMinMaxL true) | 23%N => un (EMinMaxL false) | 24%N => un ESumL
       | _ => None
       end
   | _ => None
